@@ -123,6 +123,45 @@ def _tx_events(args):
                                a_, b_, strands[rs_]))]
                             for (a_, b_, rs_) in [(rnd.randrange(-1, n + 1), rnd.randrange(0, n + 2), rnd.choice("+-"))
                                                   for _ in range(4)]]])
+                # the derived accessors of the chunk-relative (and chromosome) structure
+                def lo(fn):
+                    return E.outcome(fn, lambda r: (E.loc(r),))
+
+                def bl(fn):
+                    def enc(r):
+                        r = list(r)
+                        return ([[[x.start, x.end] for x in r], r[0].strand.to_symbol() if r else "e"],)
+                    return E.outcome(fn, enc)
+
+                acc = [["chunk_relative_blocks", bl(lambda: B.chunk_relative_blocks)], ["relative_blocks", bl(lambda: B.relative_blocks)],
+                       ["num_chunk_relative_blocks", o(lambda: B.num_chunk_relative_blocks)],
+                       ["chunk_relative_span", lo(lambda: B.chunk_relative_span)],
+                       ["chunk_relative_gaps_location", lo(lambda: B.chunk_relative_gaps_location)],
+                       ["chunk_relative_intron_location", lo(lambda: B.chunk_relative_intron_location)],
+                       ["chromosome_gaps_location", lo(lambda: B.chromosome_gaps_location)],
+                       ["cds_location", lo(lambda: B.cds_location)],
+                       ["cds_chunk_relative_location", lo(lambda: B.cds_chunk_relative_location)],
+                       ["chunk_relative_cds_blocks", bl(lambda: B.chunk_relative_cds_blocks)]]
+                ev.append(["cracc", [blocks, st], [cds, st] if cds else [[], "e"], ws, we, minus_chunk, acc])
+                # the generic point maps of a FeatureInterval on the same chunk
+                try:
+                    from inscripta.biocantor.gene.feature import FeatureInterval
+
+                    F = FeatureInterval([b[0] for b in blocks], [b[1] for b in blocks], strands[st],
+                                        parent_or_seq_chunk_parent=E.chunk_parent(root, ws, we, minus=minus_chunk))
+                except Exception:
+                    F = None
+                if F is not None:
+                    ev.append(["fmap", [blocks, st], ws, we, minus_chunk,
+                               [o(lambda q=q: F.chunk_relative_pos_to_feature(q)) for q in rq],
+                               [o(lambda i=i: F.feature_pos_to_chunk_relative(i)) for i in range(-1, n + 1)],
+                               [o(lambda p=p: F.sequence_pos_to_feature(p)) for p in rng_p],
+                               [o(lambda i=i: F.feature_pos_to_sequence(i)) for i in range(-1, n + 1)]])
+                    ev.append(["cracc", [blocks, st], [[], "e"], ws, we, minus_chunk,
+                               [["chunk_relative_blocks", bl(lambda: F.chunk_relative_blocks)],
+                                ["chunk_relative_span", lo(lambda: F.chunk_relative_span)],
+                                ["chunk_relative_gaps_location", lo(lambda: F.chunk_relative_gaps_location)],
+                                ["chromosome_gaps_location", lo(lambda: F.chromosome_gaps_location)]]])
         if rnd.random() < 0.5:
             # intersect(location): the interval restricted to another location (1-2 blocks, any strand, with or without
             # ), as a new transcript / feature
